@@ -117,6 +117,12 @@ def handleReplayDetected (auth : Entry → SecretView → Bool) (s : State) (v :
     else (requestHandshake s e.peer,
           [.received .replayDetected v.credId, .accepted .replayDetected v.credId false v.value])
 
+/-- the ideal-MAC instance of the oracle: `sealed` lists what peers produced, as (credential id of
+    the entry whose key / token was used, primitive call); a packet authenticates under entry `e` iff
+    exactly its call was produced with `e`'s secrets -/
+def idealAuth (sealed : List (List Nat × CryptoCall)) : Entry → SecretView → Bool :=
+  fun e v => sealed.any (fun p => p.1 == e.id && p.2 == secretOpenCall v)
+
 /-- `Map::handle_control_packet` -/
 def handleControlPacket (auth : Entry → SecretView → Bool) (s : State) (v : SecretView) : State × List Event :=
   match v.kind with
